@@ -192,6 +192,11 @@ fn main() {
             d_total::run(&prop, seed, a.num("from", 0), a.num("count", 20000), a.get("trace"), &mut rep);
             finish(rep, &a);
         }
+        "xztrace" => {
+            let mut rep = Report::new("xztrace");
+            d_symtrace::run_xz(&prop, seed, &a.str("files", "/repo/tests/files"), &a.str("trace", "/tmp/xztrace.ndjson"), &mut rep);
+            finish(rep, &a);
+        }
         "symtrace" => {
             let mut rep = Report::new("symtrace");
             d_symtrace::run(&prop, seed, &a.str("files", "/repo/tests/files"), a.num("cap", 20000) as usize, &a.str("trace", "/tmp/symtrace.ndjson"), &mut rep);
